@@ -4,6 +4,7 @@ package main
 
 import (
 	"fmt"
+	"strings"
 
 	"golang.org/x/tools/go/ssa"
 )
@@ -17,6 +18,7 @@ func init() {
 			"R1": "filter-before-emit on every path where a hand state may exist and system mode is off",
 			"R2": "adapter passes and keeps a fresh JSON round-trip copy of the incoming table",
 			"R3": "observer runner has no write path to the engine",
+			"R4": "the actor package invokes only the player operations of the engine: no accessor hands an actor the engine's live table or hand state",
 		},
 		Assumptions: []string{"pokerface GameState.AsObserver removes deck, burned cards, hole cards and hand strength as documented"},
 		Run:         checkC20,
@@ -26,6 +28,35 @@ func init() {
 
 func checkC20(c *Ctx) {
 	p := c.P
+	// R4: the actor package never reads the engine's own state: the only TableEngine methods it
+	// invokes are the player operations (everything an actor sees comes from its private copy)
+	{
+		n, bad := 0, 0
+		for _, f := range p.Funcs {
+			if !inPkg(p, f, "/actor") {
+				continue
+			}
+			for _, ci := range Calls(f) {
+				cm := ci.Common()
+				if !cm.IsInvoke() {
+					continue
+				}
+				it := namedOf(cm.Value.Type())
+				if it == nil || it.Obj().Name() != "TableEngine" {
+					continue
+				}
+				n++
+				if !strings.HasPrefix(cm.Method.Name(), "Player") {
+					bad++
+					c.Bad("R4", "engine-read:"+cm.Method.Name()+"@"+FuncName(f), p.InstrPos(ci), "the actor package reads the engine through "+cm.Method.Name()+"(): what it obtains is the engine's live, unfiltered state, shared with the engine")
+				}
+			}
+		}
+		if bad == 0 {
+			c.Ok("R4", "no-engine-reads", "-", fmt.Sprintf("%d engine calls in the actor package, all player operations", n))
+		}
+		c.Min("R4", "engine calls in the actor package", n, 9)
+	}
 	// observer runner: the Runner implementation that calls AsObserver (role) — or, if the
 	// filter was deleted, the one with a system-mode switch
 	ri := p.Iface("/actor", "Runner")
